@@ -285,6 +285,7 @@ impl Monitor for C16 {
         let mut rng = Rng::for_trial(cfg.seed, "C16", idx);
         let vi = (idx % 25) as usize;
         let n = nl[((idx / 25) % nl.len() as u64) as usize];
+        let n = super::jitter_n(cfg, n, 2, 50, &mut rng);
         let rep = idx / (25 * nl.len() as u64);
         let v = view(vi, n, &mut rng);
         let f32_run = cfg.tier == Tier::Thorough && rep % 8 >= 6;
